@@ -7,7 +7,9 @@ import (
 
 	"github.com/berquerant/crd/chord"
 	"github.com/berquerant/crd/errorx"
+	"github.com/berquerant/crd/input"
 	"github.com/berquerant/crd/input/ast"
+	"github.com/berquerant/crd/op"
 	"github.com/berquerant/crd/util"
 	"github.com/spf13/cobra"
 	"gopkg.in/yaml.v3"
@@ -61,12 +63,60 @@ func writeYamlOutput(cmd *cobra.Command, v any) error {
 	}
 	defer out.Close()
 
-	b, err := yaml.Marshal(v)
+	b, err := marshalYaml(v)
 	if err != nil {
 		return err
 	}
 	_, err = out.Write(b)
 	return err
+}
+
+// marshalYaml is yaml.Marshal, except that the lists crd prints for a whole
+// piece are marshalled item by item: the emitter of yaml.v3 keeps every event
+// of a document until the document ends, about 100 bytes of memory for every
+// byte it prints, so a chord text of some hundred KB needed gigabytes.
+func marshalYaml(v any) ([]byte, error) {
+	switch v := v.(type) {
+	case []*input.Instance:
+		return marshalYamlList(v)
+	case []op.Instance:
+		return marshalYamlList(v)
+	case []chord.Attribute:
+		return marshalYamlList(v)
+	case *ast.ChordList:
+		if v == nil {
+			break
+		}
+		return marshalYamlListIn(v.List, "list:\n", func(x []ast.ChordOrRest) any {
+			return &ast.ChordList{List: x}
+		})
+	}
+	return yaml.Marshal(v)
+}
+
+func marshalYamlList[T any](list []T) ([]byte, error) {
+	return marshalYamlListIn(list, "", func(x []T) any { return x })
+}
+
+// marshalYamlListIn marshals wrap(list), which prints as head followed by the list.
+func marshalYamlListIn[T any](list []T, head string, wrap func([]T) any) ([]byte, error) {
+	if len(list) == 0 {
+		return yaml.Marshal(wrap(list))
+	}
+	var buf bytes.Buffer
+	buf.WriteString(head)
+	for _, x := range list {
+		b, err := yaml.Marshal(wrap([]T{x}))
+		if err != nil {
+			return nil, err
+		}
+		item, ok := bytes.CutPrefix(b, []byte(head))
+		if !ok {
+			return yaml.Marshal(wrap(list))
+		}
+		buf.Write(item)
+	}
+	return buf.Bytes(), nil
 }
 
 func newChordBuilder(cmd *cobra.Command) (*chord.Builder, error) {
